@@ -47,6 +47,8 @@ var (
 var IsForeign func() bool
 
 // Hook is installed as verifsim.Hook for single-task properties.
+//
+//go:norace
 func Hook(s uint32) {
 	if f := IsForeign; f != nil && f() {
 		return
@@ -72,6 +74,10 @@ func Hook(s uint32) {
 		}
 		Limit = 0
 		HangHit, HangSite = true, s
+		// the budget panic unwinds the library from an arbitrary statement: a lock taken without a
+		// deferred unlock stays taken, a cache entry may be half built. Only durable state survives a
+		// crash: the child finishes this run and asks for a fresh process (cmd/sim, restart_after)
+		Tainted = true
 		panic(HangPanic{Site: s})
 	}
 }
@@ -94,6 +100,9 @@ func Work(n int) {
 
 // WorkBytes is the running total of bytes charged through Work.
 var WorkBytes int64
+
+// Tainted: a budget panic has unwound the library in this process.
+var Tainted bool
 
 // SampleAt, when SampleAt[0] > 0, turns the budget into a ladder: the stack is
 // sampled when Steps passes Limit, then Limit moves to SampleAt[0], SampleAt[1],
@@ -183,6 +192,8 @@ func LoopHolder() string {
 
 // Blocked is the BlockedHook outside a scheduled run: a single goroutine that
 // cannot take a lock will never get it.
+//
+//go:norace
 func Blocked() {
 	if f := IsForeign; f != nil && f() {
 		runtime.Gosched()
